@@ -224,7 +224,19 @@ func c20Gen(r *Rand, tier string, emit func(op any)) {
 			var body []byte
 			query := ""
 			if ct == "application/x-www-form-urlencoded" {
-				switch r.Intn(7) {
+				switch r.Intn(10) {
+				case 7, 8, 9:
+					// large bodies (around and well beyond 1 KiB … 64 KiB) with the level before or after the padding, and
+					// a query that may disagree: the body's value wins, whatever the size
+					pad := strings.Repeat("x", Pick(r, []int{900, 1010, 1024, 1100, 4096, 70000}))
+					if r.Chance(1, 2) {
+						body = []byte("level=" + url.QueryEscape(t) + "&pad=" + pad)
+					} else {
+						body = []byte("pad=" + pad + "&level=" + url.QueryEscape(t))
+					}
+					if r.Chance(2, 3) {
+						query = "level=" + url.QueryEscape(Pick(r, c20Names))
+					}
 				case 0:
 					body = []byte("level=" + url.QueryEscape(t))
 				case 1:
@@ -243,7 +255,14 @@ func c20Gen(r *Rand, tier string, emit func(op any)) {
 			} else {
 				q, _ := json.Marshal(strings.ToValidUTF8(t, "�"))
 				key := Pick(r, []string{"level", "level", "level", "Level", "LEVEL", "lvl", "levels", "leveL"})
-				switch r.Intn(12) {
+				switch r.Intn(14) {
+				case 12, 13:
+					pad := strings.Repeat("y", Pick(r, []int{900, 1010, 1024, 1100, 4096, 70000}))
+					if r.Chance(1, 2) {
+						body = []byte(`{"pad":"` + pad + `","` + key + `":` + string(q) + `}`)
+					} else {
+						body = []byte(`{"` + key + `":` + string(q) + `,"pad":"` + pad + `"}`)
+					}
 				case 0:
 					body = []byte(`{"` + key + `":` + string(q) + `}`)
 				case 1:
@@ -335,9 +354,21 @@ func c20Exec(raw json.RawMessage) Result {
 		}
 		// every other text entry point must agree with UnmarshalText
 		al := zap.NewAtomicLevelAt(zapcore.Level(op.Cur))
+		// an AtomicLevel that is already in use: a copy handed out earlier (copies share the level) and a core built from it
+		inUse := al
+		usedCore := zapcore.NewCore(zapcore.NewJSONEncoder(zapcore.EncoderConfig{}), zapcore.AddSync(io.Discard), inUse)
 		aerr := al.UnmarshalText(t)
 		if (aerr == nil) != (err == nil) || int(al.Level()) != int(l) {
 			o = bad("C20:atomic-disagrees", "AtomicLevel.UnmarshalText(%q) = %v,%v but Level gives %v,%v", t, al.Level(), aerr, l, err)
+		}
+		if inUse.Level() != al.Level() {
+			o = bad("C20:atomic-text-not-shared", "AtomicLevel.UnmarshalText(%q) set %v, but a copy of the AtomicLevel taken before reports %v: loggers built from it keep the old level",
+				t, al.Level(), inUse.Level())
+		}
+		for q := zapcore.DebugLevel; q <= zapcore.FatalLevel; q++ {
+			if usedCore.Enabled(q) != (q >= al.Level()) {
+				o = bad("C20:atomic-text-not-shared", "after AtomicLevel.UnmarshalText(%q) = %v a core built from the AtomicLevel answers Enabled(%v)=%v", t, al.Level(), q, usedCore.Enabled(q))
+			}
 		}
 		pl, perr := zapcore.ParseLevel(string(t))
 		if (perr == nil) != (err == nil) || (err == nil && pl != l) {
